@@ -47,3 +47,4 @@ CFG['level_text'] += ' The edit universe includes a module path spelled `require
 CFG['level_text'] += ' A sixth of the requested requirement lists repeat one entry (same path, same version), which asks for one requirement.'
 CFG['level_text'] += ' Sessions include calls the operations refuse (AddExclude/AddRetract with non-canonical or wrong-major versions, AddGoStmt/AddToolchainStmt with malformed versions, go.mod and go.work): the model does not move, an acceptance is a violation, and the session goes on.'
 CFG['level_text'] += ' Replacement targets include two module paths at the same version, so an AddReplace may change the path alone.'
+CFG['level_text'] += ' Use directories and replacement targets include an undecodable byte next to the end, a final combining mark and a final superscript digit (all written unquoted).'
